@@ -116,12 +116,14 @@ fn oracle_hash(ctx: &mut Ctx, rng: &mut Rng, pin: u32, seed: u32, ss: &[u8; 16],
     let want = spec_hash(pin, seed, ss, cs);
     let bit = rng.below(160) as usize;
     let other: [u8; 20] = rng.arr();
+    let near: [u8; 20] = { let base = want.unwrap_or(other); let nm = near_misses(rng, &base); let mut x = base; x.copy_from_slice(&nm[rng.below(nm.len() as u64) as usize].0); x };
     let r = catch(|| {
         let got = calculate_hash(pin, seed, ss, cs);
         let probe = want.unwrap_or(other);
         let v_right = verify_client_pin_hash(pin, seed, ss, cs, &probe);
         let v_flip = verify_client_pin_hash(pin, seed, ss, cs, &flip(&probe, bit));
         let v_other = verify_client_pin_hash(pin, seed, ss, cs, &other);
+        let v_flip = v_flip || verify_client_pin_hash(pin, seed, ss, cs, &near);
         (got, v_right, v_flip, v_other)
     });
     match r {
@@ -139,7 +141,7 @@ fn oracle_hash(ctx: &mut Ctx, rng: &mut Rng, pin: u32, seed: u32, ss: &[u8; 16],
                 ctx.fail("verify_iff", format!("{{{},\"presented\":\"spec hash\",\"verify\":{},\"hash_exists\":{}}}", detail(pin, seed, ss, cs), v_right, want.is_some()));
             }
             if v_flip {
-                ctx.fail("verify_iff", format!("{{{},\"presented\":\"spec hash with bit {} flipped\",\"verify\":true}}", detail(pin, seed, ss, cs), bit));
+                ctx.fail("verify_iff", format!("{{{},\"presented\":\"spec hash with bit {} flipped, or the near miss {}\",\"verify\":true}}", detail(pin, seed, ss, cs), bit, hex(&near)));
             }
             if v_other != (want == Some(other)) {
                 ctx.fail("verify_iff", format!("{{{},\"presented\":\"{}\",\"verify\":{}}}", detail(pin, seed, ss, cs), hex(&other), v_other));
@@ -227,6 +229,7 @@ pub fn run(ctx: &mut Ctx) {
         } else {
             for bit in 0..160 { emit_verify(ctx, "verify:bit-flip", pin, seed, &ss, &cs, &flip(&h, bit)); }
         }
+        for (wv, _) in near_misses(&mut rng, &h) { let mut h3 = h; h3.copy_from_slice(&wv); emit_verify(ctx, "verify:near-miss", pin, seed, &ss, &cs, &h3); }
         // a hash made for another pin / seed / salt, presented for this one
         let pin2 = if pin == u32::MAX { pin - 1 } else { pin + 1 };
         if let Some(Some(h2)) = catch(|| calculate_hash(pin2, seed, &ss, &cs)) { emit_verify(ctx, "verify:hash-of-other-pin", pin, seed, &ss, &cs, &h2); }
